@@ -675,7 +675,18 @@ def exec_inter(scn):
             "states": states, "sched": sched_digest, "steps": steps, "trace": trace[:200]}
 
 
+def _stack_exhausted(o):
+    e = o.get("exc") or {}
+    return e.get("cls") == "RecursionError" or "maximum recursion depth" in (e.get("msg") or "")
+
+
 def same_outcome(a, b):
+    if _stack_exhausted(a) or _stack_exhausted(b):
+        # an endlessly recursive schema (a reference cycle that consumes no instance) dies of stack exhaustion;
+        # WHERE the stack runs out - and so the exact wording, or which except clause sees it first - depends on
+        # a few frames of context that differ between a thread run alone and one of several: "died of stack
+        # exhaustion" is the whole outcome, on both sides
+        return _stack_exhausted(a) and _stack_exhausted(b)
     if a.get("k") == "errors" and b.get("k") == "errors" and a.get("complete") and b.get("complete"):
         return sorted(jdump(e) for e in a["errs"]) == sorted(jdump(e) for e in b["errs"])
     return jdump(a) == jdump(b)
